@@ -108,6 +108,11 @@ def detect(ids, props, tier):
         if rc != 0:
             r["error"] = "does not apply: " + out[-200:]
             print(json.dumps(r)); continue
+        saved = {}
+        for p in ps:
+            ev = os.path.join(VERIF, "evidence", p + ".json")
+            if os.path.exists(ev):
+                saved[ev] = open(ev).read()
         try:
             for p in ps:
                 t0 = time.time()
@@ -118,6 +123,8 @@ def detect(ids, props, tier):
                 r["results"][p] = {"exit": rc, "violation": vio[:1], "failing_input": [x[:300] for x in fi[:1]], "broken": [b[:200] for b in br[:6]], "wall": round(time.time() - t0)}
         finally:
             sh(["git", "apply", "-R", os.path.join(d, "patch.diff")], cwd=DREPO)
+            for ev, content in saved.items():   # evidence files must come from runs on the unchanged tree
+                open(ev, "w").write(content)
         print(json.dumps(r))
         out_all[i] = r
     return out_all
